@@ -60,6 +60,12 @@ CHECKS["C12"] = dict(text="TLC enumerates every 3x2 integer feature matrix x wei
     "SparseKernelCenterer it checks vanishing weighted column means and Nystrom trace n with a pseudo-inverse witness verified through the "
     "Moore-Penrose equations; plus seeded larger feature lattices with arbitrary test and active sets.", ref="6/C12",
     tech="TLC-enumerated configurations replayed in the code; TLC validates outputs against the exact feature-space result (rationals, verified witnesses)")
+CHECKS["C20"] = dict(text="TLC enumerates the discrete shape space of the calls (environments per training/test structure incl. singletons, component "
+    "partitions: 31 941 shapes; a seeded slice is replayed with integer features and alphas over 9 orders of magnitude); the specification rebuilds "
+    "M^T M + alpha s^2 I in fixed point from the integers, verifies the supplied inverse witness and evaluates the closed forms of LPR and LCPR; output "
+    "partition/order, positivity, rescaling invariance, monotonicity in alpha, LCPR(one component)=LPR, CPR(one environment)=LCPR and rank_diff (exact "
+    "integer rank for alpha=0) are checked on every case.", ref="6/C20",
+    tech="TLC-enumerated call shapes replayed in the code; TLC validates closed form with a verified inverse witness and the scaling laws as output relations")
 NA = {}
 def main():
     props = [json.loads(l)["id"] for l in open(os.path.join(HERE, "properties.jsonl"))]
